@@ -21,18 +21,21 @@ class Canaries:
     def __init__(self, wrap=None):
         self.by_canary = {}     # canary -> label
         self.by_label = {}      # label -> canary
-        self.text = {}          # label -> full text put into the document
+        self.text = {}          # label -> full text put into the document (fmt applied)
+        self.core = {}          # label -> the text that replaces the canary (wrap applied, fmt not)
         self.wrap = wrap
 
     def __call__(self, label: str, fmt: str = "{}") -> str:
+        """fmt places fixed characters around the slot text (e.g. "1{}": a value whose first character is not a letter)."""
         if label in self.by_label:
             raise ValueError("duplicate slot label " + label)
         c = canary(len(self.by_label))
         self.by_label[label] = c
         self.by_canary[c] = label
-        t = self.wrap(label, c) if self.wrap else c
-        self.text[label] = t
-        return t
+        core = self.wrap(label, c) if self.wrap else c
+        self.core[label] = core
+        self.text[label] = fmt.format(core)
+        return self.text[label]
 
 
 # slots whose text is meaningful at run time: the generated string constant must equal the document text
@@ -92,7 +95,7 @@ def _shape_schemas(C):
                 K("array-ref-enum"): {"type": "array", "items": enm},
                 K("array-inline-object"): {"type": "array", "items": {"type": "object", "title": C("Schema.title@items-object"), "description": C("Schema.description@items-object"),
                                                                        "properties": {K("items-object-prop"): {"type": "string"}}}},
-                K("array-inline-enum"): {"type": "array", "items": {"type": "string", "enum": [C("Schema.enum.item@items"), "b"]}},
+                K("array-inline-enum"): {"type": "array", "items": {"type": "string", "enum": [C("Schema.enum.item@items"), "b", C("Schema.enum.item@items-positional", "1{}")]}},
                 K("allof-merge"): {"allOf": [{"type": "string"}, {"description": C("Schema.description@allof-merge")}]},
                 K("date"): {"type": "string", "format": "date"},
                 K("file"): {"type": "string", "format": "binary"},
@@ -168,7 +171,7 @@ def _build_a(C):
                 pname: {"type": "string", "title": C("Schema.title@prop"), "description": C("Schema.description@prop"), "default": C("Schema.default@prop-string"),
                         "example": C("Schema.example@prop"), "pattern": C("Schema.pattern"), "format": C("Schema.format")},
                 req_name: {"type": "integer", "description": C("Schema.description@prop-required")},
-                "e": {"type": "string", "enum": [C("Schema.enum.item@model-prop"), "other"], "description": C("Schema.description@enum-prop"), "title": C("Schema.title@enum-prop")},
+                "e": {"type": "string", "enum": [C("Schema.enum.item@model-prop"), "other", C("Schema.enum.item@model-prop-positional", "1{}")], "description": C("Schema.description@enum-prop"), "title": C("Schema.title@enum-prop")},
                 "k": {"const": C("Schema.const@prop"), "description": C("Schema.description@const-prop")},
                 C("Schema.properties.key@const"): {"const": "plainconst"},
                 "nested": {"type": "object", "description": C("Schema.description@nested"), "properties": {C("Schema.properties.key@nested"): {"type": "string"}}},
@@ -187,7 +190,7 @@ def _build_a(C):
             },
             "additionalProperties": {"type": "string", "description": C("Schema.description@additional")},
         },
-        enum_name: {"type": "string", "enum": [C("Schema.enum.item@component"), "second"], "title": C("Schema.title@enum"), "description": C("Schema.description@enum"),
+        enum_name: {"type": "string", "enum": [C("Schema.enum.item@component"), "second", C("Schema.enum.item@component-positional", "1{}")], "title": C("Schema.title@enum"), "description": C("Schema.description@enum"),
                     "default": "second"},
         other_name: {"type": "object", "description": C("Schema.description@model2"), "properties": {"x": {"type": "integer"}},
                      "discriminator": {"propertyName": C("Discriminator.propertyName"), "mapping": {C("Discriminator.mapping.key"): C("Discriminator.mapping.value")}}},
@@ -210,7 +213,7 @@ def _build_a(C):
              "examples": {C("Parameter.examples.key"): {"summary": C("Example.summary"), "description": C("Example.description"), "value": C("Example.value"), "externalValue": C("Example.externalValue")}}},
             {"name": C("Parameter.name@header"), "in": "header", "description": C("Parameter.description@header"), "schema": {"type": "string"}},
             {"name": C("Parameter.name@cookie"), "in": "cookie", "required": True, "description": C("Parameter.description@cookie"), "schema": {"type": "string"}},
-            {"name": "qe", "in": "query", "schema": {"type": "string", "enum": [C("Schema.enum.item@param"), "zz"]}},
+            {"name": "qe", "in": "query", "schema": {"type": "string", "enum": [C("Schema.enum.item@param"), "zz", C("Schema.enum.item@param-positional", "1{}")]}},
             {"name": "qm", "in": "query", "schema": _ref(other_name)},
             {"name": "qenum", "in": "query", "schema": _ref(enum_name)},
             {"name": "qenumtwo", "in": "query", "schema": _ref(enum2_name)},
@@ -263,7 +266,7 @@ def _build_b(C):
                                C("Schema.properties.key@allof-ref"): {"allOf": [_ref(model_name)]},
                                C("Schema.properties.key@array-ref-enum"): {"type": "array", "items": _ref(enum_name)},
                                bcol + "_": {"type": "integer"}, bcol: {"type": "string"}}},
-        enum_name: {"type": "string", "enum": ["first", C("Schema.enum.item@component"), "third"], "description": C("Schema.description@enum")},
+        enum_name: {"type": "string", "enum": ["first", C("Schema.enum.item@component"), "third", C("Schema.enum.item@component-positional", "1{}")], "description": C("Schema.description@enum")},
         model_name: {
             "type": "object", "description": C("Schema.description@model"), "title": C("Schema.title@model"),
             "required": [pname],
@@ -294,7 +297,7 @@ def _build_b(C):
                                    {"name": C("Parameter.name@query-ref-enum"), "in": "query", "required": True, "schema": _ref(enum_name)},
                                    {"name": C("Parameter.name@cookie-allof-ref-enum"), "in": "cookie", "schema": {"allOf": [_ref(enum_name)]}},
                                    {"name": hcol + "_", "in": "header", "schema": {"type": "integer"}}, {"name": hcol, "in": "header", "required": True, "schema": {"type": "string"}},
-                                   {"name": "qq", "in": "query", "schema": {"type": "array", "items": {"type": "string", "enum": ["u", C("Schema.enum.item@param")]}}}],
+                                   {"name": "qq", "in": "query", "schema": {"type": "array", "items": {"type": "string", "enum": ["u", C("Schema.enum.item@param"), C("Schema.enum.item@param-positional", "1{}")]}}}],
                     "requestBody": {"content": {"application/json": {"schema": _ref(model_name)},
                                                 "multipart/form-data; c=" + C("RequestBody.content.key@param"): {"schema": {"type": "object", "properties": {"f": {"type": "string", "format": "binary"}}}}}},
                     "responses": {"201": {"description": C("Response.description"), "content": {"application/json": {"schema": {"type": "array", "items": _ref(model_name)}}}},
@@ -548,6 +551,8 @@ def classify_sanitiser(text: str, off: int) -> str:
     can = text[off:off + 7]
     tail = text[off + 7: off + 7 + 14]
     before = text[off - 1] if off > 0 else ""
+    if before == "1" and off > 1:
+        before = text[off - 2]      # slots built with fmt "1{}"
     if tail.startswith(" Yy\\\\\"\\'kw"):
         return "repr_esc" if before == "'" and tail.startswith(" Yy\\\\\"\\'kw'") else "unknown"
     if tail.startswith(" Yy\"\\'kw"):
